@@ -154,7 +154,7 @@ inductive TryRes where
   | found (body : Body) (expect : Nat)
   | proto
   | exhausted (retry : List Nat)
-deriving Repr, Inhabited
+deriving Repr, DecidableEq, Inhabited
 
 /-- The 200 branch (keepclient.go:270-279): size hint vs Content-Length; `some n` = accepted with
 expectLength n, `none` = the request fails at once. -/
@@ -230,7 +230,7 @@ inductive GetRes where
   | empty                                   -- the d41d…+0 shortcut: empty reader, size 0, no request
   | err (e : Err)
   | rdr (body : Body) (expect : Nat)
-deriving Repr, Inhabited
+deriving Repr, DecidableEq, Inhabited
 
 /-- getOrHead: `order` = getSortedRoots(locator), `tries` = 1 + Retries. -/
 def getOrHead (loc : List Char) (tries : Nat) (order : List Nat) (g : G) : GetRes × G :=
